@@ -274,6 +274,22 @@ def inductive(ck, module, inv="IndInv", mutant=None, timeout=300):
                                 generated=0, distinct=0, depth=1, violated=inv))
 
 
+def apalache_theorems(ck, module, inv="Theorems", mutant=None, timeout=300):
+    """State predicates over an arbitrary (unbounded) initial state: Init => inv, by Apalache. `mutant` must be refuted."""
+    a, w0, o0 = run_apalache(module, init="Init", inv=inv, length=0, timeout=timeout)
+    ck.tlc_runs.append(dict(name="apalache:%s %s for all initial states" % (module, inv), ok=bool(a), wall_s=round(w0, 1),
+                            generated=0, distinct=0, depth=0, violated=None if a else inv))
+    if not a:
+        ck.violation("specification %s: %s does not hold for every state" % (module, inv),
+                     dict(kind="apalache", module=module, output=o0[-3000:]))
+    if mutant:
+        c, w2, _ = run_apalache(mutant, init="Init", inv=inv, length=0, timeout=timeout)
+        if c:
+            raise MachineryError("mutant %s satisfies %s: the theorem check is vacuous" % (mutant, inv))
+        ck.tlc_runs.append(dict(name="apalache:%s (mutant, must be refuted)" % mutant, ok=True, wall_s=round(w2, 1),
+                                generated=0, distinct=0, depth=0, violated=inv))
+
+
 # --------------------------------------------------------------------------- Go harness
 
 def build_harness(tags="verif"):
